@@ -146,6 +146,69 @@ func registerReflect(in map[string]intrinsic) {
 		}
 		return &rval{t: i.t, v: i.v}, true
 	}
+	// Value.Call of a non-variadic Go function value: the function body is
+	// executed by the engine on the unwrapped arguments.
+	in["(reflect.Value).Call"] = func(p *Path, fr *frame, _ *ssa.Function, a []value) (value, bool) {
+		r := p.rv(a[0])
+		if r == nil {
+			p.reflectPanic("call of reflect.Value.Call on zero Value")
+		}
+		sig, ok := r.t.Underlying().(*types.Signature)
+		if !ok {
+			p.reflectPanic("reflect: call of non-function")
+		}
+		fnv := p.rget(r)
+		switch f := fnv.(type) {
+		case nil:
+			p.reflectPanic("reflect.Value.Call: call of nil function")
+		case *ssa.Function:
+			if f == nil {
+				p.reflectPanic("reflect.Value.Call: call of nil function")
+			}
+		case *closure:
+			if f == nil {
+				p.reflectPanic("reflect.Value.Call: call of nil function")
+			}
+		}
+		in, okIn := a[1].([]value)
+		if !okIn || sig.Variadic() || len(in) != sig.Params().Len() {
+			return nil, false // beyond the shim
+		}
+		args := make([]value, len(in))
+		for i, v := range in {
+			ar := p.rv(v)
+			if ar == nil {
+				p.reflectPanic("reflect: Call using zero Value argument")
+			}
+			pt := sig.Params().At(i).Type()
+			av := copyVal(p.rget(ar))
+			if _, isIface := pt.Underlying().(*types.Interface); isIface {
+				if _, srcIface := ar.t.Underlying().(*types.Interface); !srcIface {
+					av = iface{t: ar.t, v: av}
+				}
+			} else if !types.AssignableTo(ar.t, pt) {
+				p.reflectPanic("reflect: Call using " + ar.t.String() + " as type " + pt.String())
+			}
+			args[i] = av
+		}
+		res := p.call(fr, fnv, args, nil)
+		n := sig.Results().Len()
+		out := make([]value, n)
+		switch n {
+		case 0:
+		case 1:
+			out[0] = &rval{t: sig.Results().At(0).Type(), v: res}
+		default:
+			tp, okT := res.(tuple)
+			if !okT || len(tp) != n {
+				return nil, false
+			}
+			for i := range out {
+				out[i] = &rval{t: sig.Results().At(i).Type(), v: tp[i]}
+			}
+		}
+		return out, true
+	}
 	in["reflect.Zero"] = func(p *Path, _ *frame, _ *ssa.Function, a []value) (value, bool) {
 		t := rtypeArg(p, a[0])
 		return &rval{t: t, v: zero(t)}, true
